@@ -107,13 +107,19 @@ let regs_s x s =
   match get_ss x.s_w (ni s) with
   | None -> "regs " ^ s ^ " absent"
   | Some _ -> let c = calc_of x.s_d (ni s) in
-    Printf.sprintf "regs %s affectees=%d ae=%d ao_other=%d ao_await=%d ao_active=%d ao_filters=%d projectors=%d carrier=%d carrierless=%d ptgts=%d tgtp=%d buffs=%d"
+    let subs = List.filter (fun (s', _) -> int_of_nat s' = int_of_string s) x.s_d.d_pysubs in
+    (* fits on which the calculator listens to ItemAdded / ItemRemoved: those hosting a subscribed
+       ancillary-repairer spec *)
+    let fits = List.sort_uniq compare (List.filter_map (fun (_, sp) ->
+        if int_of_z sp.sp_mod.m_py = 2 then (match item_fit x.s_w sp.sp_item with Some f -> Some (int_of_nat f) | None -> None)
+        else None) subs) in
+    Printf.sprintf "regs %s affectees=%d ae=%d ao_other=%d ao_await=%d ao_active=%d ao_filters=%d projectors=%d carrier=%d carrierless=%d ptgts=%d tgtp=%d buffs=%d pysubs=%d pyfits=%d"
       s (List.length c.c_affectees)
       (ks_size c.c_ae_dom + ks_size c.c_ae_domgrp + ks_size c.c_ae_domsrq + ks_size c.c_ae_ownsrq)
       (ks_size c.c_ao_other) (ks_size c.c_ao_await) (ks_size c.c_ao_active)
       (ks_size c.c_ao_dom + ks_size c.c_ao_domgrp + ks_size c.c_ao_domsrq + ks_size c.c_ao_ownsrq)
       (List.length c.c_projectors) (ks_size c.c_carrier) (List.length c.c_carrierless)
-      (ks_size c.c_ptgts) (ks_size c.c_tgtp) (ks_size c.c_buffs)
+      (ks_size c.c_ptgts) (ks_size c.c_tgtp) (ks_size c.c_buffs) (List.length subs) (List.length fits)
 
 let msg_s (f, m) =
   let i n = string_of_int (int_of_nat n) in
@@ -185,8 +191,27 @@ let handle toks =
   | ["u_mod"; src; eid; flt; extra; dom; tgt; op; agg; key; srca] ->
     let u = ub (int_of_string src) in
     let m = { m_filter = zi flt; m_extra = oz extra; m_domain = zi dom; m_tgt_attr = zi tgt; m_op = zi op;
-              m_aggmode = zi agg; m_aggkey = oz key; m_src_attr = zi srca } in
+              m_aggmode = zi agg; m_aggkey = oz key; m_src_attr = zi srca; m_py = zi "0" } in
     u.effects <- upd (zi eid) (fun e -> { e with e_mods = e.e_mods @ [m] }) u.effects; "ok"
+  (* m_...: what eos's own customisations (eve_obj/custom) add to the raw data; the implementation side
+     ignores these lines because eos applies the customisations itself *)
+  | ["m_mod"; src; eid; flt; extra; dom; tgt; op; agg; key; srca] ->
+    let u = ub (int_of_string src) in
+    let m = { m_filter = zi flt; m_extra = oz extra; m_domain = zi dom; m_tgt_attr = zi tgt; m_op = zi op;
+              m_aggmode = zi agg; m_aggkey = oz key; m_src_attr = zi srca; m_py = zi "0" } in
+    u.effects <- upd (zi eid) (fun e -> { e with e_mods = e.e_mods @ [m] }) u.effects; "ok"
+  | ["m_pymod"; src; eid; kind; flt; dom; tgt] ->
+    let u = ub (int_of_string src) in
+    let m = { m_filter = zi flt; m_extra = None; m_domain = zi dom; m_tgt_attr = zi tgt; m_op = zi "0";
+              m_aggmode = zi "1"; m_aggkey = None; m_src_attr = zi "0"; m_py = zi kind } in
+    u.effects <- upd (zi eid) (fun e -> { e with e_mods = e.e_mods @ [m] }) u.effects; "ok"
+  | ["m_effect"; src; eid; cat] ->
+    let u = ub (int_of_string src) in
+    u.effects <- u.effects @ [(zi eid, { e_cat = zi cat; e_chance_attr = None; e_resist_attr = None;
+                                        e_mods = []; e_buff = false; e_autocharge_attr = None })]; "ok"
+  | ["m_teffect"; src; tid; eid] ->
+    let u = ub (int_of_string src) in
+    u.types <- upd (zi tid) (fun t -> { t with t_effects = t.t_effects @ [zi eid] }) u.types; "ok"
   | ["u_type"; src; tid; grp; cat; def] ->
     let u = ub (int_of_string src) in
     u.types <- u.types @ [(zi tid, { t_group = oz grp; t_category = oz cat; t_attrs = []; t_effects = [];
